@@ -2403,6 +2403,9 @@ def _virtualtensor_finalization(owner: weakref.ReferenceType, name: str) -> None
     r"""Finalizer function for VirtualTensor."""
     owner = owner()
     if owner:
+        # the reference now belongs to a virtual tensor since created with the same name
+        if isinstance(getattr(owner, name, None), VirtualTensor):
+            return
         if hasattr(owner, f"_{name}_ref"):
             delattr(owner, f"_{name}_ref")
 
